@@ -1,4 +1,5 @@
 import PoseVerif.Proofs.C17Lemmas
+import PoseVerif.Proofs.C19Lemmas
 /-!
 # C17 — feature representations equal their geometric definition
 
@@ -255,5 +256,147 @@ theorem groupEmbeds_entry [Inhabited S] (blocks : List (List (List (List S)))) (
   rw [h1, h2]
   refine ⟨?_, by simp, by simp, by simp⟩
   simp [List.getD_eq_getElem?_getD, List.getElem?_eq_getElem he]
+
+/-! ### the assembled representation, end to end -/
+
+/-- **assembled shape**: `(batch, len, output_size)` with the advertised `output_size` -/
+theorem forward_shape (sc : Scalar S) (atanF acosF : S → S) [Inhabited S] (comps : List Comp) (n1 : Nat) (m2 : List Rep2) (m3 : List Rep3)
+    (pts : List (List (List (List (MV S))))) (B L b l : Nat) (out : List (List (List S))) (hN : pts.length = totalPts comps)
+    (hlen : (limbPoints comps).1.length = (limbPoints comps).2.length)
+    (h : poseRepresentation sc atanF acosF comps n1 m2 m3 pts B L = some out) (hb : b < B) (hl : l < L) :
+    out.length = B ∧ (out.getD b []).length = L ∧ ((out.getD b []).getD l []).length = repOutputSize comps n1 m2.length m3.length := by
+  rw [poseRepresentation_some sc atanF acosF comps n1 m2 m3 pts B L out h]
+  obtain ⟨h1, h2, h3⟩ := rows_lengths sc atanF acosF n1 m2 m3 pts ((comps.headD default).format).length (limbPoints comps).1 (limbPoints comps).2
+    (trianglePoints (limbPoints comps).1 (limbPoints comps).2) B L
+  unfold groupEmbeds
+  simp only []
+  refine ⟨by simp, by simp [List.getD_eq_getElem?_getD, hb], ?_⟩
+  simp only [List.getD_eq_getElem?_getD, List.getElem?_map, List.getElem?_range hb, List.getElem?_range hl, Option.map_some, Option.getD_some, List.length_map]
+  simp only [List.flatten_append, List.length_append, h1, h2, h3, repOutputSize, hN, totalPts, List.length_zip, hlen, Nat.min_self]
+
+/-- **limb features**: entry `(batch, len, n1·points·letters + m·limbs + k)` is limb module `m` applied to the two ends of limb `k` (header order, component offsets added) -/
+theorem forward_limb_entry (sc : Scalar S) (atanF acosF : S → S) [Inhabited S] (comps : List Comp) (n1 : Nat) (m2 : List Rep2) (m3 : List Rep3)
+    (pts : List (List (List (List (MV S))))) (B L b l m k : Nat) (out : List (List (List S)))
+    (h : poseRepresentation sc atanF acosF comps n1 m2 m3 pts B L = some out) (hb : b < B) (hl : l < L)
+    (hm : m < m2.length) (hk : k < ((limbPoints comps).1.zip (limbPoints comps).2).length) :
+    ((out.getD b []).getD l []).getD (n1 * (pts.length * ((comps.headD default).format).length) + (m * ((limbPoints comps).1.zip (limbPoints comps).2).length + k)) default =
+      (m2[m]).apply sc atanF (cellPt pts (((limbPoints comps).1.zip (limbPoints comps).2).getD k (0, 0)).1 b l)
+        (cellPt pts (((limbPoints comps).1.zip (limbPoints comps).2).getD k (0, 0)).2 b l) := by
+  rw [poseRepresentation_some sc atanF acosF comps n1 m2 m3 pts B L out h]
+  obtain ⟨h1, h2, h3⟩ := rows_lengths sc atanF acosF n1 m2 m3 pts ((comps.headD default).format).length (limbPoints comps).1 (limbPoints comps).2
+    (trianglePoints (limbPoints comps).1 (limbPoints comps).2) B L
+  generalize (limbPoints comps).1 = l1 at *
+  generalize (limbPoints comps).2 = l2 at *
+  have hin : m * (l1.zip l2).length + k < (m2.map fun m => rep2Rows (m.apply sc atanF) pts l1 l2 B L).flatten.length := by
+    rw [h2]
+    calc m * (l1.zip l2).length + k < m * (l1.zip l2).length + (l1.zip l2).length := by omega
+      _ = (m + 1) * (l1.zip l2).length := by rw [Nat.add_mul, Nat.one_mul]
+      _ ≤ m2.length * (l1.zip l2).length := Nat.mul_le_mul_right _ hm
+  have hrow : (List.replicate n1 (pointsRepRows sc pts ((comps.headD default).format).length) ++ (m2.map fun m => rep2Rows (m.apply sc atanF) pts l1 l2 B L)
+      ++ (m3.map fun m => rep3Rows (m.apply sc acosF) pts (trianglePoints l1 l2) B L)).flatten.getD
+        (n1 * (pts.length * ((comps.headD default).format).length) + (m * (l1.zip l2).length + k)) [] =
+      (List.range B).map fun b => (List.range L).map fun l => (m2[m]).apply sc atanF (cellPt pts ((l1.zip l2).getD k (0, 0)).1 b l) (cellPt pts ((l1.zip l2).getD k (0, 0)).2 b l) := by
+    rw [List.flatten_append, List.flatten_append, ← h1, getD_append_mid _ _ _ _ _ hin]
+    rw [flatten_getD_block (l1.zip l2).length [] _ m k (by
+      intro x hx; obtain ⟨m', _, rfl⟩ := List.mem_map.mp hx; exact rep2Rows_length _ _ _ _ _ _) (by simpa using hm) hk]
+    simp only [List.getD_eq_getElem?_getD, List.getElem?_map, List.getElem?_eq_getElem hm, Option.map_some, Option.getD_some, rep2Rows, List.getElem?_eq_getElem hk]
+  have hlt : n1 * (pts.length * ((comps.headD default).format).length) + (m * (l1.zip l2).length + k) <
+      (List.replicate n1 (pointsRepRows sc pts ((comps.headD default).format).length) ++ (m2.map fun m => rep2Rows (m.apply sc atanF) pts l1 l2 B L)
+      ++ (m3.map fun m => rep3Rows (m.apply sc acosF) pts (trianglePoints l1 l2) B L)).flatten.length := by
+    simp only [List.flatten_append, List.length_append, h1]
+    omega
+  rw [(groupEmbeds_entry _ B L b l _ hb hl hlt).1, hrow]
+  exact grid_getD B L b l hb hl _
+
+/-- **joint-triple features**: entry `(batch, len, n1·points·letters + n2·limbs + m·triples + k)` is triple module `m` applied to the three points of chain `k` -/
+theorem forward_triple_entry (sc : Scalar S) (atanF acosF : S → S) [Inhabited S] (comps : List Comp) (n1 : Nat) (m2 : List Rep2) (m3 : List Rep3)
+    (pts : List (List (List (List (MV S))))) (B L b l m k : Nat) (out : List (List (List S)))
+    (h : poseRepresentation sc atanF acosF comps n1 m2 m3 pts B L = some out) (hb : b < B) (hl : l < L)
+    (hm : m < m3.length) (hk : k < (trianglePoints (limbPoints comps).1 (limbPoints comps).2).length) :
+    ((out.getD b []).getD l []).getD (n1 * (pts.length * ((comps.headD default).format).length) + m2.length * ((limbPoints comps).1.zip (limbPoints comps).2).length
+        + (m * (trianglePoints (limbPoints comps).1 (limbPoints comps).2).length + k)) default =
+      (m3[m]).apply sc acosF (cellPt pts ((trianglePoints (limbPoints comps).1 (limbPoints comps).2).getD k (0, 0, 0)).1 b l)
+        (cellPt pts ((trianglePoints (limbPoints comps).1 (limbPoints comps).2).getD k (0, 0, 0)).2.1 b l)
+        (cellPt pts ((trianglePoints (limbPoints comps).1 (limbPoints comps).2).getD k (0, 0, 0)).2.2 b l) := by
+  rw [poseRepresentation_some sc atanF acosF comps n1 m2 m3 pts B L out h]
+  obtain ⟨h1, h2, h3⟩ := rows_lengths sc atanF acosF n1 m2 m3 pts ((comps.headD default).format).length (limbPoints comps).1 (limbPoints comps).2
+    (trianglePoints (limbPoints comps).1 (limbPoints comps).2) B L
+  generalize (limbPoints comps).1 = l1 at *
+  generalize (limbPoints comps).2 = l2 at *
+  generalize trianglePoints l1 l2 = tri at *
+  have hin : m * tri.length + k < (m3.map fun m => rep3Rows (m.apply sc acosF) pts tri B L).flatten.length := by
+    rw [h3]
+    calc m * tri.length + k < m * tri.length + tri.length := by omega
+      _ = (m + 1) * tri.length := by rw [Nat.add_mul, Nat.one_mul]
+      _ ≤ m3.length * tri.length := Nat.mul_le_mul_right _ hm
+  have hrow : (List.replicate n1 (pointsRepRows sc pts ((comps.headD default).format).length) ++ (m2.map fun m => rep2Rows (m.apply sc atanF) pts l1 l2 B L)
+      ++ (m3.map fun m => rep3Rows (m.apply sc acosF) pts tri B L)).flatten.getD
+        (n1 * (pts.length * ((comps.headD default).format).length) + m2.length * (l1.zip l2).length + (m * tri.length + k)) [] =
+      (List.range B).map fun b => (List.range L).map fun l => (m3[m]).apply sc acosF (cellPt pts (tri.getD k (0, 0, 0)).1 b l) (cellPt pts (tri.getD k (0, 0, 0)).2.1 b l)
+        (cellPt pts (tri.getD k (0, 0, 0)).2.2 b l) := by
+    rw [List.flatten_append, List.flatten_append, ← h1, ← h2, getD_append_last]
+    rw [flatten_getD_block tri.length [] _ m k (by
+      intro x hx; obtain ⟨m', _, rfl⟩ := List.mem_map.mp hx; exact rep3Rows_length _ _ _ _ _) (by simpa using hm) hk]
+    simp only [List.getD_eq_getElem?_getD, List.getElem?_map, List.getElem?_eq_getElem hm, Option.map_some, Option.getD_some, rep3Rows, List.getElem?_eq_getElem hk]
+  have hlt : n1 * (pts.length * ((comps.headD default).format).length) + m2.length * (l1.zip l2).length + (m * tri.length + k) <
+      (List.replicate n1 (pointsRepRows sc pts ((comps.headD default).format).length) ++ (m2.map fun m => rep2Rows (m.apply sc atanF) pts l1 l2 B L)
+      ++ (m3.map fun m => rep3Rows (m.apply sc acosF) pts tri B L)).flatten.length := by
+    simp only [List.flatten_append, List.length_append, h1, h2]
+    omega
+  rw [(groupEmbeds_entry _ B L b l _ hb hl hlt).1, hrow]
+  exact grid_getD B L b l hb hl _
+
+/-- **point features**: entry `(batch, len, c·points·letters + p·letters + d)` of points block `c` is coordinate `d` of point `p`, zero-filled -/
+theorem forward_point_entry (sc : Scalar S) (atanF acosF : S → S) [Inhabited S] (comps : List Comp) (n1 : Nat) (m2 : List Rep2) (m3 : List Rep3)
+    (pts : List (List (List (List (MV S))))) (B L b l c p d : Nat) (out : List (List (List S)))
+    (h : poseRepresentation sc atanF acosF comps n1 m2 m3 pts B L = some out) (hb : b < B) (hl : l < L)
+    (hc : c < n1) (hp : p < pts.length) (hd : d < ((comps.headD default).format).length)
+    (hB : b < (pts.getD p []).length) (hL : l < ((pts.getD p []).getD b []).length) :
+    ((out.getD b []).getD l []).getD (c * (pts.length * ((comps.headD default).format).length) + (p * ((comps.headD default).format).length + d)) default =
+      mvZeroFilled sc ((cellPt pts p b l).getD d (default, false)) := by
+  rw [poseRepresentation_some sc atanF acosF comps n1 m2 m3 pts B L out h]
+  obtain ⟨h1, h2, h3⟩ := rows_lengths sc atanF acosF n1 m2 m3 pts ((comps.headD default).format).length (limbPoints comps).1 (limbPoints comps).2
+    (trianglePoints (limbPoints comps).1 (limbPoints comps).2) B L
+  generalize (limbPoints comps).1 = l1 at *
+  generalize (limbPoints comps).2 = l2 at *
+  generalize trianglePoints l1 l2 = tri at *
+  generalize ((comps.headD default).format).length = dims at *
+  have hj : p * dims + d < pts.length * dims := by
+    calc p * dims + d < p * dims + dims := by omega
+      _ = (p + 1) * dims := by rw [Nat.add_mul, Nat.one_mul]
+      _ ≤ pts.length * dims := Nat.mul_le_mul_right _ hp
+  have hin : c * (pts.length * dims) + (p * dims + d) < (List.replicate n1 (pointsRepRows sc pts dims)).flatten.length := by
+    rw [h1]
+    calc c * (pts.length * dims) + (p * dims + d) < c * (pts.length * dims) + pts.length * dims := by omega
+      _ = (c + 1) * (pts.length * dims) := by rw [Nat.add_mul, Nat.one_mul]
+      _ ≤ n1 * (pts.length * dims) := Nat.mul_le_mul_right _ hc
+  have hrow : (List.replicate n1 (pointsRepRows sc pts dims) ++ (m2.map fun m => rep2Rows (m.apply sc atanF) pts l1 l2 B L)
+      ++ (m3.map fun m => rep3Rows (m.apply sc acosF) pts tri B L)).flatten.getD (c * (pts.length * dims) + (p * dims + d)) [] =
+      pts[p].map (List.map fun pt => mvZeroFilled sc (pt.getD d (default, false))) := by
+    rw [List.flatten_append, List.flatten_append, List.append_assoc]
+    simp only [List.getD_eq_getElem?_getD]
+    rw [List.getElem?_append_left hin]
+    have := flatten_getD_block (pts.length * dims) [] (List.replicate n1 (pointsRepRows sc pts dims)) c (p * dims + d) (by
+      intro x hx; rw [(List.mem_replicate.mp hx).2]; exact (pointsRep_row sc pts dims p d hp hd).1) (by simpa using hc) hj
+    simp only [List.getD_eq_getElem?_getD] at this
+    rw [this, List.getElem?_replicate, if_pos hc]
+    exact (pointsRep_row sc pts dims p d hp hd).2
+  have hlt : c * (pts.length * dims) + (p * dims + d) <
+      (List.replicate n1 (pointsRepRows sc pts dims) ++ (m2.map fun m => rep2Rows (m.apply sc atanF) pts l1 l2 B L)
+      ++ (m3.map fun m => rep3Rows (m.apply sc acosF) pts tri B L)).flatten.length := by
+    simp only [List.flatten_append, List.length_append]
+    omega
+  rw [(groupEmbeds_entry _ B L b l _ hb hl hlt).1, hrow]
+  unfold cellPt
+  simp only [List.getD_eq_getElem?_getD, List.getElem?_eq_getElem hp, Option.getD_some] at hB hL ⊢
+  simp only [List.getElem?_map, List.getElem?_eq_getElem hB, Option.map_some, Option.getD_some] at hL ⊢
+  simp only [List.getElem?_eq_getElem hL, Option.map_some, Option.getD_some]
+
+
+/-! non-vacuity: a three-point chain `0 → 1 → 2`, one batch entry, one time step, natural-number "coordinates" -/
+def chainComps : List Comp := [{ name := "c", format := "XYC", points := ["a", "b", "c"], limbs := [(0, 1), (1, 2)], colors := [] }]
+def chainPts : List (List (List (List (MV Nat)))) := [[[[(3, true), (4, true), (1, true)]]], [[[(0, true), (0, true), (1, true)]]], [[[(3, false), (9, false), (1, false)]]]]
+example : (poseRepresentation C19.natSc id id chainComps 0 [.distance] [] chainPts 1 1) = some [[[5, 0]]] := by decide +kernel
+example : (poseRepresentation C19.natSc id id [{ name := "c", format := "XYC", points := ["a", "b"], limbs := [(0, 1)], colors := [] }] 0 [.distance] [] chainPts 1 1) = none := by decide +kernel
 
 end PoseVerif.Props.C17
